@@ -1,6 +1,6 @@
 """C02 — concurrent commands are serializable; acknowledged writes are never lost."""
 import json, os
-from .. import common, framework, fndiff, cmdrun, gen, oracles, strace, crash, sched
+from .. import common, framework, fndiff, cmdrun, gen, oracles, strace, crash, sched, explore2
 
 KINDS = {"new_task": 22, "set": 22, "claim": 8, "claim_oldest": 10, "sequence": 12, "sequence_rm": 4, "plan": 8, "prune_yes": 6, "compact": 4, "new_epic": 4}
 
@@ -236,6 +236,9 @@ def run(ctx):
         parked_pairs(ctx, r.fork())
     for i in range(14 if ctx.quick else 400):
         free_mix(ctx, r.fork())
+    # two-process schedules with A parked before, inside and after its lock section
+    for i in range(8 if ctx.quick else 200):
+        explore2.explore(ctx, "C02", r.fork(), max_points=(4 if ctx.quick else 40))
     ctx.cov["rule"] = ("system-call programs of every writer kind (one exclusive non-blocking flock; the log read after it and before the single write / tmp+rename; unlock last); pairs of "
                        "generated commands A ∥ B with A parked (strace SIGSTOP) at first/middle/last (thorough: every) point while holding the lock: B must fail fast with lock busy and write nothing, "
                        "A's outcome must equal A alone; 2–5 commands started together: whole JSON lines, no interleaving, and the final state equals the acknowledged commands run one at "
